@@ -644,7 +644,7 @@ impl World {
             if let Some((inf, tim)) = s.counts() {
                 self.log.push(Rec::N(
                     name,
-                    vec![inf as i128, tim as i128, self.log.now_ns()],
+                    vec![inf as i128, tim as i128, self.log.now_ns(), st.sflag.is_set() as i128],
                 ));
             }
         }
@@ -745,6 +745,10 @@ impl World {
                         let ready = !matches!(y, Yielded::Pending);
                         self.log.end_poll(Task::Stream(0), prev, ready);
                         self.st.borrow_mut().stream = Some(s);
+                        if matches!(y, Yielded::Ifr(_) | Yielded::Fut(_)) {
+                            // a stream that yielded an item must be polled again
+                            self.st.borrow().sflag.set();
+                        }
                         self.snap("snap");
                         match y {
                             Yielded::Pending => {}
